@@ -135,6 +135,12 @@ func (o *suiteOut) close() {
 	for _, k := range keys {
 		dist[k] = o.dist[k]
 	}
+	if o.failures == nil {
+		o.failures = []failure{}
+	}
+	if o.samples == nil {
+		o.samples = []string{}
+	}
 	st := map[string]any{
 		"suite":               o.name,
 		"evaluations":         o.n,
@@ -190,6 +196,7 @@ func main() {
 	out := fs.String("out", ".", "output directory")
 	n := fs.Int("n", 0, "number of random cases (0 = tier default)")
 	file := fs.String("file", "", "replay: file with case lines")
+	fs.StringVar(&corpusDir, "corpus", "", "directory with <suite>.txt corpus files")
 	fs.Parse(os.Args[2:])
 	switch cmd {
 	case "list":
@@ -211,6 +218,28 @@ func main() {
 		fn(o, newRng(*seed), *tier, *n)
 		o.close()
 	}
+}
+
+var corpusDir = ""
+
+// corpusLines returns the stored cases of a suite (minimised past failures
+// and the witnesses of fixed defects); they run first.
+func corpusLines(suite string) []string {
+	if corpusDir == "" {
+		return nil
+	}
+	data, err := os.ReadFile(filepath.Join(corpusDir, suite+".txt"))
+	if err != nil {
+		return nil
+	}
+	var res []string
+	for _, l := range strings.Split(string(data), "\n") {
+		l = strings.TrimSpace(l)
+		if l != "" && !strings.HasPrefix(l, "#") {
+			res = append(res, l)
+		}
+	}
+	return res
 }
 
 // replayers map the verb of a case line to a function that re-runs the
